@@ -129,6 +129,8 @@ fn giant_elements<const N: usize>(c: &mut Ctx) {
 }
 
 pub fn run(c: &mut Ctx) {
+    // this property rebuilds every state many times: very large sparse states are capped at 2^20 buckets
+    crate::states::set_huge_max_lg(20);
     c.run_scenarios(|c, idx, rng| {
         if crate::util::mix(idx ^ 0x61a) % 50 == 0 {
             let mut d = Json::obj();
